@@ -81,7 +81,11 @@ MULTILINE = [  # constructs whose shared delimiters span lines (solo generator a
     "f(i\n  for i in 'é'\n  if i)(j for\n j in k)",
     "class C(B,\n   metaclass=M\n): pass\n@d(a for a\n  in b)\ndef g(): pass",
 ]
-PROGS = BASE + EXTRA + TRICKY + PARS + LOCS + MULTILINE
+FSTRDBG = [  # containers inside self-documenting f-string fields (their text is mirrored in a hidden constant)
+    "print(f\"{lookup(lo, hi, default=None)=}\")",
+    "s = f'{[a, b, c] = } {d = !r}'\nt = f\"{ {k: v, **w} = }\"",
+]
+PROGS = BASE + EXTRA + TRICKY + PARS + LOCS + MULTILINE + FSTRDBG
 for _p in PROGS:
     ast.parse(_p)
 
